@@ -38,6 +38,10 @@ Proof.
   unfold may_mutate. apply (existsb_false_In _ _ He). exact Hr.
 Qed.
 
+(* the duplicating templates push deep copies: the premise under which `dup` models them *)
+Lemma dup_templates_copy : dup_templates_ok dup_templates = true.
+Proof. vm_compute. reflexivity. Qed.
+
 Lemma pure_table :
   (forall t, In t mut_elements -> mem_str (mt_key t) c10_suspect_elements = false -> templ_clean t) /\
   (forall t, In t mut_modifiers -> mem_str (mt_key t) c10_suspect_modifiers = false -> templ_clean t).
